@@ -61,7 +61,12 @@ Proof.
     destruct (toml_root_is_table t v out H) as (es & ->).
     destruct (tunnel_free_tab es Hf) as [Hfirst _]. unfold plain_root.
     rewrite (ttv_nodup es y Hfirst C). exact Hfirst.
-  - intros y' Ht. apply tv_table_is_value in Ht. congruence.
+  - intros y' Ht. destruct (tv_table_cases t v y' Hty Ht) as [E|(d & _ & E)]; [congruence|exfalso].
+    (* the document root is a table, not a date-time *)
+    destruct (toml_root_is_table t v out H) as (es & ->). destruct (tunnel_free_tab es Hf) as [Hfirst _].
+    rewrite (ttv_tab_plain es Hfirst) in C. apply rbind_ok in C as (es' & _ & C).
+    destruct (nodup_bytes (map fst es')); [|discriminate C]. injection C as <-.
+    rewrite T in E. unfold ser_datetime in E. destruct (dt_field_str (display_datetime d)); discriminate E.
 Qed.
 
 (* ---- every decoding route on the document toml::to_string writes ---- *)
